@@ -851,6 +851,11 @@ def c_specs():
               lambda a, t: ({2: (t - a - 8) & M32}, None)))
     S.append(("rows_dp", "MovRegisterThumbT1", dict(D=1, d=7, m=1), lambda a, t: ({1: t}, None)))
     S.append(("rows_dp", "AddRegisterThumbT2", dict(D=1, d=7, m=1), lambda a, t: ({1: (t - a - 4) & M32}, None)))
+    # ADD pc,sp,pc (ADD (SP plus register) T1 with Rdm = PC) and the ARM SP-plus-register / immediate forms
+    S.append(("rows_dp", "AddSpPlusRegisterThumbT1", dict(D=1, d=7), lambda a, t: ({13: (t - a - 4) & M32}, None)))
+    S.append(("rows_dp", "AddSpPlusRegisterArmA1", dict(c=14, S=0, d=15, m=2, i=0, t=0), lambda a, t: ({13: (t - 4) & M32, 2: 4}, None)))
+    S.append(("rows_dp", "AddSpPlusImmediateA1", dict(c=14, S=0, d=15, i=4), lambda a, t: ({13: (t - 4) & M32}, None)))
+    S.append(("rows_dp", "SubImmediateArmA1", dict(c=14, S=0, d=15, n=1, i=4), lambda a, t: ({1: (t + 4) & M32}, None)))
     S.append(("rows_ldst", "LdrImmediateArmA1", dict(c=14, P=1, U=1, W=0, n=1, t=15, i=0),
               lambda a, t: ({1: 0x10100}, word_patch(0x10100, t))))
     S.append(("rows_ldst", "LdrImmediateThumbT3", dict(n=1, t=15, i=4), lambda a, t: ({1: 0x10100}, word_patch(0x10104, t))))
